@@ -13,6 +13,7 @@ import RSVerif.Proofs.TableSpec
 import RSVerif.Proofs.LocatorSpec
 import RSVerif.Proofs.TableInitSpec
 import RSVerif.Proofs.SrcTablesFinal
+import RSVerif.Gen.SrcWiring
 
 namespace RS
 open ShardAlg
@@ -178,5 +179,17 @@ theorem source_mul_tables :
         rowOfTable lo logm k = lutLo (fun y => gmul (gexp logm) y) k ∧
         rowOfTable hi logm k = lutHi (fun y => gmul (gexp logm) y) k) :=
   src_mul_tables
+
+/-- the WIRING of the tables in today's source (`Gen/SrcWiring.lean`): each `LazyLock` static is built by the initialiser of
+    `source_tables_and_integer_code` / `source_mul_tables`, and each engine's `new()` takes exactly the tables its
+    kernels are proved correct with: Naive the `exp` / `log` halves of `EXP_LOG`, NoSimd `MUL16`, the three SIMD
+    engines `MUL128`, all of them `SKEW` -/
+theorem source_table_wiring :
+    RS.SrcW2.tableInit = [("EXP_LOG", "initialize_exp_log"), ("LOG_WALSH", "initialize_log_walsh"),
+      ("MUL16", "initialize_mul16"), ("MUL128", "initialize_mul128"), ("SKEW", "initialize_skew")] ∧
+    RS.SrcW2.engineTables = [("Naive", [("exp", "EXP_LOG.exp"), ("log", "EXP_LOG.log"), ("skew", "SKEW")]),
+      ("NoSimd", [("mul16", "MUL16"), ("skew", "SKEW")]), ("Ssse3", [("mul128", "MUL128"), ("skew", "SKEW")]),
+      ("Avx2", [("mul128", "MUL128"), ("skew", "SKEW")]), ("Neon", [("mul128", "MUL128"), ("skew", "SKEW")])] := by
+  decide
 
 end RS
